@@ -190,4 +190,33 @@ example :
     ([([97], some fa), ([109], none), ([98], some fb)] : List (Bytes × Option (Node Attr))).flatMap
         (writtenRoot {} .true_ (.pathOut [] [0])) = [97, 0, 98, 0] := by decide
 
+theorem buildTop_single_test (t : Prim) (ht : isTestP t = true) :
+    buildTop Prim.isAction (.pathOut [] [10]) [Tok.prim t] = .ok (.and [.prim t, .prim (.pathOut [] [10])]) := by
+  cases t <;> simp [isTestP] at ht <;> rfl
+
+/-- **`find [-P|-H|-L] S1 S2 … TEST`** (no action: `-print` is implied) — the whole run of the
+    model, with no hypothesis on the trees: argument layer, tree builder with the default action
+    (C01), `do_find` over the starting points (this property), `process_dir` over walkdir's iterator
+    (C02, C03), the action (C07).  The output is the concatenation, in command-line order of the
+    starting points and in visit order inside each, of `path ++ "\n"` for the reachable entries
+    that satisfy the test; a starting point that cannot be examined contributes nothing and makes
+    the status non-zero. -/
+theorem C18_whole_run (follow : Follow) (t : Prim) (ht : isTestP t = true)
+    (roots : List (Bytes × Option (Node Attr))) (g0 : GS) :
+    ∃ res, run follow roots [.tok (.prim t)] g0 = some res ∧
+      res.gs.out = g0.out ++ roots.flatMap (writtenRoot { follow := follow } t (.pathOut [] [10])) ∧
+      ((∃ x ∈ roots, x.2 = none) → res.ret ≠ 0) := by
+  have hb := buildTop_single_test t ht
+  refine ⟨doFind { follow := follow } (.and [.prim t, .prim (.pathOut [] [10])]) roots g0 0 0, ?_, ?_⟩
+  · simp only [run, List.foldl, applyArg, List.map, Arg.tok', hb]
+  · have h := doFind_out { follow := follow } t (.pathOut [] [10]) ht rfl roots
+      (fun _ _ _ _ hd => by simp [refCfg] at hd) g0 0 0
+    exact ⟨h.1, fun hx => h.2 (Or.inr hx)⟩
+
+/-- the statement evaluated on a concrete run: `find a missing b -type f` -/
+example :
+    let fa : Node Attr := .leaf [97] .plain { lty := 'f', sty := 'f' }
+    let db : Node Attr := .dir [98] false true { lty := 'd', sty := 'd' } [.leaf [99] .plain { lty := 'f', sty := 'f' }]
+    ([([97], some fa), ([109], none), ([98], some db)] : List (Bytes × Option (Node Attr))).flatMap
+        (writtenRoot { follow := .never } (.typeIs 'f') (.pathOut [] [10])) = [97, 10, 98, 47, 99, 10] := by decide
 end FuModel.Find.Run
